@@ -95,6 +95,10 @@ impl Rng {
         &xs[self.usize_below(xs.len())]
     }
 
+    pub fn pick_str<'a>(&mut self, xs: &[&'a str]) -> &'a str {
+        xs[self.usize_below(xs.len())]
+    }
+
     pub fn shuffle<T>(&mut self, xs: &mut [T]) {
         for i in (1..xs.len()).rev() {
             let j = self.usize_below(i + 1);
